@@ -171,6 +171,62 @@ func runC09(c *Ctx) {
 				continue
 			}
 			doneIn[in] = true
+			// library calls that reorder or overwrite a slice IN PLACE (sort.Strings, slices.Sort, copy into …): the slice
+			// has to be one this function made — a list read from a route entry or an authenticator shares its backing
+			// array with every request
+			if call, isCall := in.(*ssa.Call); isCall {
+				var dst ssa.Value
+				switch calleeName(&call.Call) {
+				case "sort.Strings", "sort.Ints", "sort.Float64s", "sort.Slice", "sort.SliceStable", "slices.Sort", "slices.SortFunc", "slices.SortStableFunc", "slices.Reverse", "builtin copy":
+					if len(call.Call.Args) > 0 {
+						dst = unboxed(call.Call.Args[0])
+					}
+				case "sort.Sort", "sort.Stable":
+					if len(call.Call.Args) > 0 {
+						dst = unboxed(call.Call.Args[0])
+						if ct, isCT := dst.(*ssa.ChangeType); isCT {
+							dst = ct.X
+						}
+					}
+				}
+				if dst != nil {
+					if _, isSlice := dst.Type().Underlying().(*types.Slice); isSlice && !freshSlice(dst, 0) {
+						sharedSrc := false
+						for _, o := range originsOf(dst) {
+							if cc := asCall(o.V); cc != nil && isRepoPath(fnPkgPathOfCallee(&cc.Call)) {
+								sharedSrc = true // what an accessor of a library object handed out
+							}
+							if ad, isLd := derefLoad(o.V); isLd {
+								if _, isFA := ad.(*ssa.FieldAddr); isFA {
+									sharedSrc = true
+								}
+							}
+						}
+						if sharedSrc {
+							nWrites++
+							c.obD("R09.1", call, "in-place-reorder-of-foreign-slice", false, "request-reachable code sorts / copies into only slices it has made itself: a list obtained from a route entry, an authenticator or an API registry shares its backing array with every other request", baseName(calleeName(&call.Call))+" rewrites "+describe(dst)+" in place")
+						}
+					}
+				}
+			}
+			// a concurrent map held in a shared structure and written on the request path is remembered state: whether one
+			// request's entry can answer another request's question depends on how it is keyed — not decided here
+			if call, isCall := in.(*ssa.Call); isCall {
+				switch calleeName(&call.Call) {
+				case "(*sync.Map).Store", "(*sync.Map).LoadOrStore", "(*sync.Map).Swap", "(*sync.Map).CompareAndSwap", "(*sync.Map).LoadAndDelete", "(*sync.Map).Delete":
+					recv := call.Call.Args[0]
+					if fa, isFA := recv.(*ssa.FieldAddr); isFA {
+						root, rootT, immT, field := chainRoot(fa)
+						if immT != nil && immT.Obj().Pkg() != nil && isRepoPath(immT.Obj().Pkg().Path()) && perRequestTypes[typeFullName(rootT)] == "" && !isFresh(fn, root) {
+							nWrites++
+							c.obRI("R09.1", call, "memo-on-shared-structure-"+field, false, "request-reachable code keeps no remembered results in a shared structure (none exists in the reviewed code: each request recomputes from the immutable tables)", baseName(calleeName(&call.Call))+" on "+typeFullName(immT)+"."+field+" — a cache shared by all requests: sound only if its key determines the answer, which is not decided structurally")
+						}
+					} else if g, isG := recv.(*ssa.Global); isG && isRepoPath(g.Pkg.Pkg.Path()) {
+						nWrites++
+						c.obRI("R09.1", call, "memo-in-global-"+g.Name(), false, "request-reachable code keeps no remembered results in package-level state", baseName(calleeName(&call.Call))+" on the package-level "+short(g.String()))
+					}
+				}
+			}
 			switch st := in.(type) {
 			case *ssa.Store:
 				// (c) globals
@@ -406,6 +462,33 @@ func ruleR09_2(c *Ctx) {
 	isFreshRoute := func(o Origin) bool {
 		a, ok := o.V.(*ssa.Alloc)
 		return ok && a.Heap && a.Parent() == lk && typeStr(a.Type()) == "*rt/middleware.MatchedRoute"
+	}
+	// the per-request validation record holds nothing shared: the map of bound values it hands to the handler (which may
+	// write into it) and its error accumulator are made for this request — also for operations without parameters
+	for _, fn := range p.LibFuncs("rt/middleware") {
+		for _, fld := range []string{"bound", "result"} {
+			for _, st := range fieldStores(fn, "rt/middleware.validation", fld) {
+				if st.Parent() != fn {
+					continue
+				}
+				shared := ""
+				for _, o := range originsOf(st.Val) {
+					if ad, isLd := derefLoad(o.V); isLd {
+						if g, isG := ad.(*ssa.Global); isG {
+							shared = short(g.String())
+						}
+					}
+					if g, isG := o.V.(*ssa.Global); isG {
+						shared = short(g.String())
+					}
+				}
+				if shared != "" {
+					c.obD("R09.2", st, "validation-record-holds-nothing-shared", false, "validation."+fld+" is made for the request at hand (a fresh map / slice, or what this request's stages appended)", "validation."+fld+" can be the package-level "+shared+": every request that takes this path reads and writes the same object")
+				} else {
+					c.obI("R09.2", st, "validation-record-holds-nothing-shared", true, "validation."+fld+" is made for the request at hand", "")
+				}
+			}
+		}
 	}
 	ruleFreshMatchedRoute(c, "R09.2", "a lookup returns nil or a MatchedRoute allocated by that very call", "returned pointer is not a fresh allocation (a cached or shared *MatchedRoute would be mutated by concurrent requests)")
 	for _, in := range instrs(lk) {
@@ -1067,4 +1150,18 @@ func onlyRootedIn(fn *ssa.Function, name string) bool {
 		}
 	}
 	return len(rs) > 0
+}
+
+// fnPkgPathOfCallee: the package path of a call's statically resolved callee (or of the interface method's package).
+func fnPkgPathOfCallee(c *ssa.CallCommon) string {
+	if c.IsInvoke() {
+		if c.Method.Pkg() != nil {
+			return c.Method.Pkg().Path()
+		}
+		return ""
+	}
+	if sc := c.StaticCallee(); sc != nil {
+		return fnPkgPath(sc)
+	}
+	return ""
 }
